@@ -16,7 +16,9 @@ MANIFEST = dict(
           "tuner run store to / warm-start from disjoint slots (on top of C13's first-batch-single theorem); const-interface "
           "calls with private function objects / buffers are conflict-free provided minimize() works on per-call line-search "
           "clones; sum_reduce over per-thread accumulators = plain sum in exact arithmetic; the weak-learner selection is "
-          "independent of the assignment of features to workers when no two scores tie (refuted with ties). PARTIAL: that the "
+          "independent of the assignment of features to workers when no two scores tie (refuted with ties; also stated for the selection "
+          "computed with the source's own comparisons, which are translated and proved to be one strict order inside a worker and "
+          "across workers; an epsilon-improvement rule is refuted). PARTIAL: that the "
           "C++ memory accesses follow the discipline (data-race freedom) is NOT proved; it is validated on every run, in both "
           "tiers, by ThreadSanitizer on sampled schedules (2..16 threads, seeded delays at the pool's synchronisation points) "
           "and by comparing every concurrent call bit for bit with the same call alone (fits with pools of 1, 2, 4, 16 "
@@ -26,7 +28,7 @@ MANIFEST = dict(
           "which buffer, which slot was stored / read back, fast-path decisions, chunk lists) are fed to the extracted model."),
     note=("Coq kernel; the footprints are a hand abstraction of the code (validated, not proved); data-race freedom of the "
           "C++ accesses is validated by ThreadSanitizer + differential runs on SAMPLED schedules only (partial); translator "
-          "(60 kernels, group c18); theorems of C17 (pool protocol) and C13 (first batch single) are re-used; atomicity "
+          "(68 kernels, group c18); theorems of C17 (pool protocol) and C13 (first batch single) are re-used; atomicity "
           "reduction of C17; extraction ExtrOcamlBasic; ocaml/c18_driver.ml; harness/c18_shared.cpp + NANO_VERIF hooks "
           "(g_max_threads, g_rng_seed, schedule points, pool events); floating-point re-association across thread counts is "
           "outside the exact-arithmetic reduction theorem (compared within the property's 1e-5)."),
@@ -100,11 +102,12 @@ def analyse(r, exe, mode, out, rc, tag, drv, cands):
     done = [l for l in lines if l.startswith("DONE ")]
     fails = [l for l in lines if l.startswith("FAIL ")]
     stats = {"scenarios": 0, "fails": len(fails), "loops": 0, "users": 0, "tunes": 0, "fits": 0, "cands": 0,
-             "model_checked": 0, "mismatches": 0, "tsan_reports": 0, "exit": rc}
-    m = re.search(r"DONE scenarios=(\d+) fails=(\d+) cands=(\d+) loops=(\d+) users=(\d+) tunes=(\d+) fits=(\d+)", "\n".join(done))
+             "wfits": 0, "wfit_exact_ties": 0, "model_checked": 0, "mismatches": 0, "tsan_reports": 0, "exit": rc}
+    m = re.search(r"DONE scenarios=(\d+) fails=(\d+) cands=(\d+) loops=(\d+) users=(\d+) tunes=(\d+) fits=(\d+) wfits=(\d+) wties=(\d+)", "\n".join(done))
     if m:
         stats.update(scenarios=int(m.group(1)), fails=int(m.group(2)), cands=int(m.group(3)), loops=int(m.group(4)),
-                     users=int(m.group(5)), tunes=int(m.group(6)), fits=int(m.group(7)))
+                     users=int(m.group(5)), tunes=int(m.group(6)), fits=int(m.group(7)), wfits=int(m.group(8)),
+                     wfit_exact_ties=int(m.group(9)))
 
     def replay_cmd(fam, k):
         pre = "VERIF_SEED=%d " % r.seed
@@ -117,7 +120,7 @@ def analyse(r, exe, mode, out, rc, tag, drv, cands):
     stats["tsan_reports"] = len(reps)
     for i, rep in enumerate(reps[:3]):
         pos = out.find(rep[0])
-        before = [l for l in out[:pos].split("\n") if l.startswith(("LOOP", "USER", "TUNET", "TUNEB", "FIT"))]
+        before = [l for l in out[:pos].split("\n") if l.startswith(("LOOP", "USER", "TUNET", "TUNEB", "FIT", "WFIT"))]
         frames = [l.strip() for l in rep if re.match(r"\s+#\d+ ", l)]
         # the report without the deep std::future / pthread frames of each stack
         short = [l[:300] for l in rep if not (re.match(r"\s+#(\d+) ", l) and int(re.match(r"\s+#(\d+) ", l).group(1)) > 7)]
@@ -144,7 +147,7 @@ def analyse(r, exe, mode, out, rc, tag, drv, cands):
                                      "sanitizer": [l[:300] for l in lines if "ERROR:" in l or "SUMMARY:" in l or "ThreadSanitizer" in l][:10],
                                      "replay_cmd": replay_cmd(None, 0)})
     if drv:
-        feed = "\n".join(l for l in lines if l.startswith(("LOOP ", "USER ", "TUNEB ", "TUNET ", "FIT "))) + "\n"
+        feed = "\n".join(l for l in lines if l.startswith(("LOOP ", "USER ", "TUNEB ", "TUNET ", "FIT ", "WFIT "))) + "\n"
         rc2, mout = vlib.sh([drv], input=feed, timeout=3000)
         mm = [l for l in mout.split("\n") if l.startswith("MISMATCH")]
         md = re.search(r"MODEL-DONE checked=(\d+) mismatches=(\d+) loops=(\d+) groups=(\d+) pairs=(\d+) tunebatches=(\d+) "
@@ -232,7 +235,7 @@ def run(tier, replay=None):
 
     vlib.handle_coq_failure(r, cres)
     vlib.proof_coverage(r, cres, "make -C coq theories/Properties_C18.vo && coqc theories/Properties_C18.v (Print Assumptions)",
-                        ["tools/translate.py (60 kernels of group c18: per-thread indices and sizes, tune slots, pool fast paths, sum_reduce loop)",
+                        ["tools/translate.py (68 kernels of group c18: per-thread indices and sizes, the `better than the best so far` tests of the weak-learner caches and of min_reduce, tune slots, pool fast paths, sum_reduce loop)",
                          "theorems of C17 (pool protocol invariants) and C13 (first batch is a single trial) are imported",
                          "extraction: ExtrOcamlBasic only", "ocaml/c18_driver.ml (parsing of the observation lines)",
                          "harness/c18_shared.cpp + NANO_VERIF hooks in parallel.h/.cpp, random.cpp (add-only)",
@@ -245,9 +248,9 @@ def run(tier, replay=None):
     pools_hist = collections.Counter()
     for l in lines + tlines:
         t = l.split(" ", 2)
-        if t[0] in ("LOOP", "USER", "TUNEB", "TUNET", "FIT"):
+        if t[0] in ("LOOP", "USER", "TUNEB", "TUNET", "FIT", "WFIT"):
             kv = dict(x.split("=", 1) for x in l.split(" | ")[0].split()[2:] if "=" in x)
-            kinds[t[0] + ":" + kv.get("kind", kv.get("model", ""))] += 1
+            kinds[t[0] + ":" + kv.get("kind", kv.get("model", kv.get("learner", "")))] += 1
             if "threads" in kv:
                 threads_hist[kv["threads"]] += 1
             if "pool" in kv:
@@ -258,7 +261,7 @@ def run(tier, replay=None):
                 tids = set(x.split(":")[3 if t[0] == "LOOP" else 4] for x in parts[1].split() if x.count(":") >= 5) if len(parts) > 1 else set()
                 if len(tids) >= 2:
                     distinct.add(re.sub(r"^\w+ \d+ ", "", l))
-            elif t[0] in ("USER", "FIT") and kv.get("threads", "1") != "1":
+            elif t[0] in ("USER", "FIT", "WFIT") and kv.get("threads", "1") != "1":
                 distinct.add(re.sub(r"^\w+ \d+ ", "", l))
     cov["evaluations"] = stats["scenarios"] + tstats["scenarios"]
     cov["distinct_nontrivial"] = len(distinct)
@@ -269,7 +272,11 @@ def run(tier, replay=None):
                    "objects and buffers, compared bit for bit with the same calls made alone; TUNE = ml::tune with an exact dyadic "
                    "callback under tune pools of 1, 2, 16 workers (local-search / surrogate, 2..6 folds); FIT = full fit() of "
                    "linear (4 regularisers) and gboost (7 weak-learner pools, 5 sub-sampling modes with fixed seed, 3 shrinkage modes) "
-                   "with pools of 1, 2, 4, 16 workers (thorough: also under 1-2 CPU affinity); seeded yields / sleeps at the 6 schedule "
+                   "with pools of 1, 2, 4, 16 workers (thorough: also under 1-2 CPU affinity); WFIT = fits of every weak learner with per-thread "
+                   "caches (affine, stump, hinge, 4 tables, depth-1 tree) on datasets with near-duplicate features (copies scaled by 1 +- 2^-30 / "
+                   "perturbed by 1e-9 / exact / 1e-6, at arbitrary positions; near-duplicate categorical features) with dataset pools of "
+                   "2, 3, 4, 8, 16 workers, selected features + score + predictions bit-identical to the one-worker fit (an exactly equal "
+                   "score on another feature = the known tie case, counted as wfit_exact_ties); seeded yields / sleeps at the 6 schedule "
                    "points of the pool (level 0..2 per scenario). Every scenario runs on the release build and (a subset in quick) on "
                    "the ThreadSanitizer build. distinct_nontrivial = distinct observation lines that were really concurrent (tasks "
                    "of a LOOP / TUNEB line ran on >= 2 OS threads; USER / FIT lines with >= 2 threads)")
@@ -283,7 +290,7 @@ def run(tier, replay=None):
     cov["impl_direct_failures"] = stats["fails"] + tstats["fails"]
     cov["footprint_observations_checked"] = stats["model_checked"] + tstats["model_checked"]
     cov["candidate_findings"] = candidates
-    smp = [l[:400] for l in lines if l.startswith(("LOOP 3 ", "USER 5 ", "TUNEB 2 ", "TUNET 2 ", "FIT 5 "))][:6]
+    smp = [l[:400] for l in lines if l.startswith(("LOOP 3 ", "USER 5 ", "TUNEB 2 ", "TUNET 2 ", "FIT 5 ", "WFIT 16 "))][:7]
     cov["samples"] = smp or [l[:300] for l in lines[:4]] or ["(no scenario output)"]
     cov["unproved_clauses_searched"] = [
         "data-race freedom of the C++ memory accesses (ThreadSanitizer on the sampled schedules of both tiers; the theorems are about the "
